@@ -99,30 +99,46 @@ pub fn exhaustive(thorough: bool) -> ExhaustiveReport {
     vec![(0, 0), (3, 0)]
   };
   let budget_per_combo: u64 = if thorough { 40_000 } else { 600 };
-  for (sc, script) in combos {
+  // one thread per combination (each run itself uses two threads that take turns)
+  struct ComboResult {
+    cases: u64,
+    nontrivial: u64,
+    complete: bool,
+    violation: Option<(Vec<u8>, u32, Outcome)>,
+    sample: Option<String>,
+  }
+  let one = |sc: u32, script: usize| -> ComboResult {
     // depth-first over decision prefixes; a decision byte 255 = switch, 0 = stay
+    let mut r = ComboResult {
+      cases: 0,
+      nontrivial: 0,
+      complete: true,
+      violation: None,
+      sample: None,
+    };
     let mut stack: Vec<Vec<u8>> = vec![vec![]];
-    let mut runs = 0u64;
     while let Some(prefix) = stack.pop() {
-      if runs >= budget_per_combo {
-        rep.complete = false;
+      if r.cases >= budget_per_combo {
+        r.complete = false;
         break;
       }
       let mut o = Outcome::new();
       reader_case(sc, script, &prefix, &mut o);
-      runs += 1;
-      rep.cases += 1;
+      r.cases += 1;
       if o.nontrivial {
-        rep.nontrivial += 1;
-      }
-      if o.is_violation() && rep.violation.is_none() {
-        let mut bytes = vec![sc as u8, script as u8];
-        bytes.extend_from_slice(&prefix);
-        rep.violation = Some((bytes, 9999, o));
-        return rep;
+        r.nontrivial += 1;
       }
       // number of yield points reached in this run
       let n = o.sample.matches("\"C").count() + o.sample.matches("\"P").count();
+      if r.cases == 7 {
+        r.sample = Some(o.sample.clone());
+      }
+      if o.is_violation() {
+        let mut bytes = vec![sc as u8, script as u8];
+        bytes.extend_from_slice(&prefix);
+        r.violation = Some((bytes, 9999, o));
+        return r;
+      }
       // children: keep the prefix, stay at the following positions, switch at position i
       for i in (prefix.len()..n).rev() {
         let mut child = prefix.clone();
@@ -130,9 +146,24 @@ pub fn exhaustive(thorough: bool) -> ExhaustiveReport {
         child.push(255);
         stack.push(child);
       }
-      if rep.samples.len() < 3 && runs == 7 {
-        rep.samples.push(o.sample.clone());
+    }
+    r
+  };
+  let results: Vec<ComboResult> = thread::scope(|s| {
+    let hs: Vec<_> = combos.iter().map(|(sc, script)| s.spawn(move || one(*sc, *script))).collect();
+    hs.into_iter().map(|h| h.join().expect("C13 exhaustive thread")).collect()
+  });
+  for r in results {
+    rep.cases += r.cases;
+    rep.nontrivial += r.nontrivial;
+    rep.complete &= r.complete;
+    if let Some(s) = r.sample {
+      if rep.samples.len() < 3 {
+        rep.samples.push(s);
       }
+    }
+    if rep.violation.is_none() {
+      rep.violation = r.violation;
     }
   }
   rep
